@@ -292,9 +292,13 @@ inline void drive_c08()
         if (wp.first + 4 > d.size()) continue;
         uint32_t orig;
         std::memcpy(&orig, d.data() + wp.first, 4);
-        std::vector<uint32_t> repl = {0u, orig ^ 1u, orig ^ 0x100u, orig ^ 0x10000u, orig ^ 0x1000000u, orig ^ 0x80000000u, orig + 0x20000000u, orig - 0x20000000u,
-                                      MH, MF, (uint32_t)rng.next(), 0xAB010000u, 0xAB020010u, 0xAB020006u, 0xAB020002u};
-        if (!std::strcmp(wp.second, "float-width")) repl = {0u, 1u, 2u, 3u, 5u, 6u, 7u, 9u, 16u, 0x04000000u, 0x08000000u, 0xffffffffu, orig == 4 ? 8u : 4u, (uint32_t)rng.next()};
+        std::vector<uint32_t> repl = {0u, orig + 0x20000000u, orig - 0x20000000u, MH, MF, (uint32_t)rng.next(), 0xAB010000u, 0xAB020010u, 0xAB020006u, 0xAB020002u,
+                                      0xAB110000u /* the CUDA array's tag */, orig ^ 0x00110000u, orig ^ 0xffffffffu};
+        for (unsigned bit = 0; bit < 32; ++bit) repl.push_back(orig ^ (1u << bit));  // all 32 single-bit flips
+        if (!std::strcmp(wp.second, "float-width")) {
+            repl = {0u, 1u, 2u, 3u, 5u, 6u, 7u, 9u, 16u, 0x04000000u, 0x08000000u, 0xffffffffu, orig == 4 ? 8u : 4u, (uint32_t)rng.next()};
+            for (unsigned bit = 0; bit < 32; ++bit) repl.push_back(orig ^ (1u << bit));
+        }
         // a neighbouring layer's tag
         if (heads.size() > 1 && std::strstr(wp.second, "tag")) {
             size_t other = heads[rng.below(heads.size())];
